@@ -1,7 +1,7 @@
 (* C05 — property theorems only.  Bodies live in PassProofs.v / Proofs.v. *)
 From Coq Require Import PrimFloat Sorting.Permutation Sorting.Sorted.
 From EsVerif.Common Require Import Base.
-From EsVerif.C05 Require Import Model Spec PassProofs Proofs.
+From EsVerif.C05 Require Import Model Spec PassProofs Proofs FloatFacts SortFacts FloatProofs.
 
 (* The compiled and the pure-python engine (two transcriptions) return identical arrays. *)
 Theorem C05_engines_equal : forall x lo hi m, histogram EngC x lo hi m = histogram EngPy x lo hi m.
@@ -75,6 +75,94 @@ Example C05_nonvacuous :
   /\ (exists o, histogram EngPy [0.5; 0.25; 3; 1; 1; 2.5]%float (Some 0.5%float) (Some 2.75%float) (ByBinsize 0.5%float) = Ok o
              /\ o_hist o = [1; 2; 0; 0; 1] /\ o_rev o = [6; 7; 9; 9; 9; 10; 0; 3; 4; 5]
              /\ contracts_b [0.5; 0.25; 3; 1; 1; 2.5]%float (Some 0.5%float) (Some 2.75%float) o = true).
+Proof.
+  split; eexists; (split; [vm_compute; reflexivity|]); vm_compute; repeat split; reflexivity.
+Qed.
+
+(* ------------------------------------------------------------------------------------------------
+   Finite data: the hypotheses `contracts` are theorems (IEEE-754 facts through Flocq's link between
+   primitive floats and its binary64 formalisation; these theorems depend on the standard library's
+   FloatAxioms specifications of the primitive operations and on the axioms of the real numbers). *)
+
+(* DESIGN stretch `binnum_monotone`: on data between the limits, sorted values have non-decreasing,
+   non-negative bin numbers and truncation equals floor. *)
+Theorem C05_binnum_monotone : forall dmin dmax bs nb x k1 k2,
+  finite_f dmin = true -> finite_f dmax = true -> params_ok (mkParams dmin dmax bs nb) = true ->
+  finite_f (fget x k1) = true -> finite_f (fget x k2) = true ->
+  PrimFloat.leb dmin (fget x k1) = true -> PrimFloat.leb (fget x k1) (fget x k2) = true ->
+  PrimFloat.leb (fget x k2) dmax = true ->
+  binnum x dmin bs k1 <= binnum x dmin bs k2
+  /\ 0 <= binnum x dmin bs k1
+  /\ binnum x dmin bs k1 = bin_index dmin bs (fget x k1).
+Proof. exact binnum_monotone_f. Qed.
+
+(* the stable argsort of the model orders by value, ties in original order *)
+Theorem C05_argsort_stable : forall x, forallb finite_f x = true ->
+  ordered x (argsort x) /\ Permutation (argsort x) (zseq 0 (length x)).
+Proof. intros x H. split; [apply (argsort_ordered x H)|apply argsort_perm]. Qed.
+
+Theorem C05_contracts_hold : forall eng x lo hi m o,
+  forallb finite_f x = true -> finite_opt lo = true -> finite_opt hi = true ->
+  histogram eng x lo hi m = Ok o -> params_ok (o_params o) = true ->
+  contracts x lo hi o.
+Proof. intros eng x lo hi m o H. exact (contracts_hold x H eng lo hi m o). Qed.
+
+(* The property as stated, on the data, for every finite input with a sane bin specification, through
+   either public entry point and any combination of the binsize=/nbin= keywords; nothing monitored. *)
+Theorem C05_holds_finite : forall eng a x lo hi k nb o,
+  forallb finite_f x = true -> finite_opt lo = true -> finite_opt hi = true ->
+  histogram_api eng a x lo hi k nb = Ok o -> params_ok (o_params o) = true ->
+  hist_ok x lo hi (p_dmin (o_params o)) (p_bsize (o_params o)) (p_nbin (o_params o)) (o_hist o) (o_rev o).
+Proof. exact api_holds_finite. Qed.
+
+Theorem C05_api_engines_equal : forall a x lo hi k nb,
+  histogram_api EngC a x lo hi k nb = histogram_api EngPy a x lo hi k nb.
+Proof. exact histogram_api_engines_equal. Qed.
+
+(* keyword handling: histogram() lets nbin override binsize (default 1.0); Binner.dohist looks at
+   binsize first; neither given is an error after the limits were applied *)
+Theorem C05_options : forall eng x lo hi,
+  (forall k n, histogram_api eng ApiHistogram x lo hi k (Some n) = histogram eng x lo hi (ByNbin n))
+  /\ histogram_api eng ApiHistogram x lo hi KwOmit None = histogram eng x lo hi (ByBinsize default_binsize)
+  /\ (forall b nb, histogram_api eng ApiBinner x lo hi (KwVal b) nb = histogram eng x lo hi (ByBinsize b))
+  /\ (forall n, histogram_api eng ApiBinner x lo hi KwOmit (Some n) = histogram eng x lo hi (ByNbin n))
+  /\ (forall o, histogram_api eng ApiBinner x lo hi KwOmit None <> Ok o).
+Proof.
+  intros eng x lo hi. repeat split; try reflexivity.
+  intros o. unfold histogram_api, resolve, kw_binsize. destruct (limits x (argsort x) lo hi); discriminate.
+Qed.
+
+(* the named constants (regenerated from the source on every run and compared by Exec.consts_agree)
+   are the ones the model's functions use *)
+Theorem C05_consts :
+  (forall dmin dmax b, derive dmin dmax (ByBinsize b)
+     = Ok (b, f2z_trunc (PrimFloat.div (PrimFloat.sub dmax dmin) b) + nbin_plus))
+  /\ (forall xmin xmax v, within xmin xmax v
+     = (if lo_inclusive then PrimFloat.leb xmin v else PrimFloat.ltb xmin v)
+       && (if hi_inclusive then PrimFloat.leb v xmax else PrimFloat.ltb v xmax))
+  /\ (forall bn nbin s, chist bn nbin s =
+       let nrev := Z.of_nat (length s) + nbin + rev_extra in
+       let '(binold, offset_end, hist, rev) :=
+         c_loop bn nbin s 0 binold_init (nbin + offset_end_init) (zeros nbin) (zeros nrev) in
+       (hist, fill rev (binold + 1) (Z.to_nat (nbin - binold)) offset_end))
+  /\ (forall bn nbin s, pyhist bn nbin s =
+       let nrev := Z.of_nat (length s) + nbin + rev_extra in
+       let '(binold, offset_end, hist, rev) :=
+         py_loop bn nbin s (nbin + offset_init) binold_init (nbin + offset_end_init) (zeros nbin) (zeros nrev) in
+       (hist, fill rev (binold + 1) (Z.to_nat (nbin - binold)) offset_end))
+  /\ (sort_stable = true).
+Proof.
+  split; [exact derive_binsize_const|]. split; [exact within_const|].
+  split; [exact chist_const|]. split; [exact pyhist_const|reflexivity].
+Qed.
+
+(* Non-vacuity of C05_holds_finite: both example inputs are inside its domain. *)
+Example C05_finite_nonvacuous :
+  (exists o, histogram_api EngC ApiHistogram [0; 1; 2; 3; 4]%float None None KwOmit (Some 2) = Ok o
+             /\ params_ok (o_params o) = true /\ o_hist o = [2; 2])
+  /\ (exists o, histogram_api EngPy ApiBinner [0.5; 0.25; 3; 1; 1; 2.5]%float (Some 0.5%float) (Some 2.75%float)
+                   (KwVal 0.5%float) (Some 7) = Ok o
+             /\ params_ok (o_params o) = true /\ o_hist o = [1; 2; 0; 0; 1]).
 Proof.
   split; eexists; (split; [vm_compute; reflexivity|]); vm_compute; repeat split; reflexivity.
 Qed.
